@@ -561,12 +561,8 @@ def oracle_angvec(ctx):
                     continue
                 rep['out'] = [None if not np.isfinite(t) else float(t), None if ax is None else np.asarray(ax, float).tolist()]
                 if not ok_val:
-                    if ax is None and np.isfinite(t) and 9 * EPS < th_true < 101 * EPS:
-                        ctx.fail('oracle:angvec:axis-none:angle-between-10eps-and-100eps',
-                                 f"tr2angvec returns (theta={t!r}, axis=None) for a rotation by {th_true:g} rad: iszerovec (10 eps) says the log is "
-                                 f"non-zero but unitvec (100 eps) refuses to normalise it", rep)
-                    else:
-                        ctx.fail(f'oracle:angvec:{site}:undefined', f"tr2angvec returns (theta={t}, axis={ax})", rep)
+                    # (theta, None) for angles in (10 eps, 100 eps) was repaired by /repo 7d9131b + d900630; generic key
+                    ctx.fail(f'oracle:angvec:{site}:undefined', f"tr2angvec returns (theta={t!r}, axis={ax}) for a rotation by {th_true:g} rad", rep)
                     continue
                 ax = np.asarray(ax, float)
                 err = float(np.max(np.abs(Rb - Rin)))
